@@ -19,17 +19,25 @@ import common as C
 import diaglib as D
 import fa_lib
 import imp_lib as I
+import root_run
+from root_lib import PROJECT as R_PROJECT
 
 PROP = "C08"
 MODEL_FILES = ["model/Base.v", "model/ModNames.v", "model/Str.v", "model/PyAst.v", "model/Naming.v", "model/Context.v", "model/CallSwaps.v",
-               "model/FuncAn.v", "spec/FaCheck.v", "spec/Occurs.v", "spec/CallSpec.v", "spec/Binding.v", "spec/FaSpecCheck.v", "spec/Scoping.v"]
-PROOF_FILES = ["proofs/C08Proofs.v", "proofs/C08Member.v", "props/C08.v"]
+               "model/FuncAn.v", "spec/FaCheck.v", "spec/Occurs.v", "spec/CallSpec.v", "spec/Binding.v", "spec/FaSpecCheck.v", "spec/Scoping.v"] + root_run.MODEL_FILES[4:]
+PROOF_FILES = ["proofs/C08Proofs.v", "proofs/C08Member.v", "proofs/RootProofs.v", "props/C08.v"]
 
 MOD_IMP = ("def mfunc(z):\n    return z.attr_mfunc\n\ndef ifunc(z):\n    return z.attr_ifunc\n\ndef gfunc(z):\n    return z.attr_mod_gfunc\n\n"
            "class GCls:\n    def __init__(self, z, extra=None):\n        self.h = z.attr_mod_GCls\n\n    @staticmethod\n    def make(z):\n        return z.attr_mod_make\n\n"
            "    def flush(self, z):\n        return z.attr_mod_method_flush\n\ndef twice(z):\n    return z.attr_mod_twice\n\n"
-           "def flush(z):\n    return z.attr_mod_flush\n\nregistry = GCls(1)\n")
+           "def flush(z):\n    return z.attr_mod_flush\n\nregistry = GCls(1)\n\n"
+           # callers inside the imported module: their bare calls name the module's OWN gfunc / GCls, which are spelled (and,
+           # for gfunc, shaped) like the target file's
+           "def calls_gfunc(z):\n    return gfunc(z)\n\ndef makes_GCls(z):\n    return GCls(z)\n")
+PKG_FILES = {"pkg_imp/__init__.py": "def pfunc(z):\n    return z.attr_pkg_init_pfunc\n",
+             "pkg_imp/sub.py": "def pfunc(z):\n    return z.attr_pkg_sub_pfunc\n\ndef sfunc(z):\n    return z.attr_pkg_sub_sfunc\n"}
 PRELUDE = """import mod_imp
+import pkg_imp.sub
 from mod_imp import ifunc
 
 def gfunc(z):
@@ -55,11 +63,15 @@ def twice(z):
 """
 ROOT = [("mod_imp", "RModuleImport"), ("ifunc", "RFromImport"), ("gfunc", "RFunc"), ("glam", "RLambda"), ("GCls", "RClass"),
         ("GCls.smeth", "RStatic"), ("gvar", "RVariable"), ("twice", "RFunc"), ("len", "RBuiltin"), ("print", "RBuiltin")]
-MEMBERS = ["mod_imp.mfunc", "mod_imp.ifunc", "mod_imp.gfunc", "mod_imp.twice", "mod_imp.flush", "mod_imp.GCls.make"]
+MEMBERS = ["mod_imp.mfunc", "mod_imp.ifunc", "mod_imp.gfunc", "mod_imp.twice", "mod_imp.flush", "mod_imp.GCls.make", "mod_imp.calls_gfunc", "mod_imp.makes_GCls",
+           "pkg_imp.pfunc", "pkg_imp.sub.pfunc", "pkg_imp.sub.sfunc"]
+DOTTED_HEADS = ["pkg_imp"]        # `import pkg_imp.sub` binds pkg_imp
 # callable name -> the distinctive attribute its body reads
 ATTR = {"gfunc": "attr_gfunc", "glam": "attr_glam", "GCls": "attr_GCls", "GCls.smeth": "attr_smeth", "ifunc": "attr_ifunc",
         "mod_imp.mfunc": "attr_mfunc", "mod_imp.gfunc": "attr_mod_gfunc", "mod_imp.ifunc": "attr_ifunc", "twice": "attr_twice_last", "mod_imp.twice": "attr_mod_twice",
-        "mod_imp.flush": "attr_mod_flush", "mod_imp.GCls.make": "attr_mod_make"}
+        "mod_imp.flush": "attr_mod_flush", "mod_imp.GCls.make": "attr_mod_make",
+        "mod_imp.calls_gfunc": "attr_mod_gfunc", "mod_imp.makes_GCls": "attr_mod_GCls",
+        "pkg_imp.pfunc": "attr_pkg_init_pfunc", "pkg_imp.sub.pfunc": "attr_pkg_sub_pfunc", "pkg_imp.sub.sfunc": "attr_pkg_sub_sfunc"}
 OTHER_ATTRS = ["attr_mod_GCls", "attr_twice_first", "attr_mod_method_flush"]
 ALL_ATTRS = sorted(set(ATTR.values()) | set(OTHER_ATTRS))
 
@@ -69,10 +81,11 @@ def sites():
     out = []
     n = [0]
 
-    def add(src, params, callee, special=False, tag=""):
+    def add(src, params, callee, special=False, tag="", arg="a", may=()):
         n[0] += 1
         name = f"site{n[0]}"
-        out.append({"name": name, "src": src.replace("CALLER", name), "params": params, "callee": callee, "special": special, "tag": tag})
+        out.append({"name": name, "src": src.replace("CALLER", name), "params": params, "callee": callee, "special": special, "tag": tag,
+                    "arg": arg, "may": list(may)})
 
     names = ["gfunc", "glam", "GCls", "ifunc", "len", "undefined_name", "gvar", "twice"]
     # bare calls, unshadowed
@@ -114,8 +127,20 @@ def sites():
             add(f"def CALLER(a):\n{pre}    return {obj}.{meth}(a)\n", params, f"{obj}.{meth}", tag=f"method on {'parameter' if obj == 'a' else obj}")
     add("def CALLER(a):\n    return a.b.gfunc(a)\n", ["a"], "a.b.gfunc", tag="method on attribute chain")
     # on a call result / on a subscript / on a literal
-    add("def CALLER(a):\n    return gfunc(a).glam(a)\n", ["a"], "gfunc().glam", special=True, tag="method on call result")
-    add("def CALLER(a):\n    return glam(a)(a)\n", ["a"], "glam()", special=True, tag="call on call result")
+    add("def CALLER(a):\n    return gfunc(a).glam(a)\n", ["a"], "gfunc().glam", special=True, tag="method on call result", may=["a.attr_gfunc"])
+    add("def CALLER(a):\n    return glam(a)(a)\n", ["a"], "glam()", special=True, tag="call on call result", may=["a.attr_glam"])
+    add("def CALLER(a):\n    return glam(a.first)(a.second)\n", ["a"], "glam()", special=True, tag="call on call result, different arguments", may=["a.first.attr_glam"])
+    add("def CALLER(a):\n    return gfunc(a.first)(a.second)\n", ["a"], "gfunc()", special=True, tag="call on call result, different arguments", may=["a.first.attr_gfunc"])
+    add("def CALLER(a):\n    return gfunc(a.first).glam(a.second)\n", ["a"], "gfunc().glam", special=True, tag="method on call result, different arguments", may=["a.first.attr_gfunc"])
+    # functions of the imported module that call the module's own same-named function / class
+    add("def CALLER(a):\n    return mod_imp.calls_gfunc(a)\n", ["a"], "mod_imp.calls_gfunc", tag="module member whose own callee is named like a function of the target file")
+    add("def CALLER(a):\n    return mod_imp.makes_GCls(a)\n", ["a"], "mod_imp.makes_GCls", tag="module member whose own callee is named like a class of the target file")
+    # `import pkg_imp.sub`: pkg_imp names the package, pkg_imp.sub the submodule; both define pfunc
+    add("def CALLER(a):\n    return pkg_imp.pfunc(a)\n", ["a"], "pkg_imp.pfunc", tag="member of the package of a dotted import")
+    add("def CALLER(a):\n    return pkg_imp.sfunc(a)\n", ["a"], "pkg_imp.sfunc", tag="member of the submodule called on the package of a dotted import")
+    add("def CALLER(a):\n    return pkg_imp.sub.pfunc(a)\n", ["a"], "pkg_imp.sub.pfunc", tag="member of the submodule of a dotted import")
+    add("def CALLER(a):\n    return pkg_imp.sub.sfunc(a)\n", ["a"], "pkg_imp.sub.sfunc", tag="member of the submodule of a dotted import")
+    add("def CALLER(a, pkg_imp):\n    return pkg_imp.pfunc(a)\n", ["a", "pkg_imp"], "pkg_imp.pfunc", tag="shadowed by parameter")
     add("def CALLER(a):\n    return a[0].gfunc(a)\n", ["a"], "a[].gfunc", special=True, tag="method on subscript")
     add("def CALLER(a):\n    return a[0](a)\n", ["a"], "a[]", special=True, tag="call on subscript")
     add("def CALLER(a):\n    return 'txt'.gfunc(a)\n", ["a"], "@Str.gfunc", special=True, tag="method on literal")
@@ -123,16 +148,6 @@ def sites():
     # builtins with a callable argument: the argument is not called by rattr
     add("def CALLER(a):\n    return print(a)\n", ["a"], "print", tag="builtin")
     return out
-
-
-def inner_calls(site) -> list[str]:
-    """For special sites the inner call (gfunc(a) in gfunc(a).glam(a)) is an ordinary call that is inlined: its
-    attribute is expected."""
-    if site["tag"] == "method on call result":
-        return ["attr_gfunc"]
-    if site["tag"] == "call on call result":
-        return ["attr_glam"]
-    return []
 
 
 def main(tier: str) -> int:
@@ -145,7 +160,7 @@ def main(tier: str) -> int:
     ss = sites()
     source = PRELUDE + "\n" + "\n".join(s["src"] for s in ss)
     with D.Scratch() as root:
-        I.materialise(root, {"target.py": source, "mod_imp.py": MOD_IMP})
+        I.materialise(root, {"target.py": source, "mod_imp.py": MOD_IMP, **PKG_FILES})
         run = I.run_project(root, follow=1)
         # the same module through the FunctionAnalyser correspondence
         import os, sys
@@ -173,43 +188,63 @@ def main(tier: str) -> int:
     header = "From RattrV Require Import Base Str Context Scoping.\nOpen Scope string_scope.\nOpen Scope list_scope.\n"
     header += f"Definition root : list (string * rkind) := {C.clist('(' + C.cstr(n) + ', ' + k + ')' for n, k in ROOT)}.\n"
     header += f"Definition members : list string := {C.cstrs(MEMBERS)}.\n"
+    header += f"Definition heads : list string := {C.cstrs(DOTTED_HEADS)}.\n"
     cases, metas = [], []
     for s in ss:
         res = run["results"].get(s["name"])
         if res is None:
             continue
-        text = " ".join(res["gets"] + res["sets"] + res["dels"])
+        observed = sorted({n for n in res["gets"] + res["sets"] + res["dels"] if any(n.endswith("." + a) for a in ALL_ATTRS)})
         want = ATTR.get(s["callee"])
-        present = sorted(a for a in ALL_ATTRS if a in text and a not in inner_calls(s))
-        inlined = bool(present)
-        wrong = [a for a in present if a != want]
-        cases.append(f"(mkSite root members {C.cstrs(s['params'])} {C.cstr(s['callee'])} {C.cbool(s['special'])} {C.cbool(inlined)})")
-        metas.append({**s, "results": res, "distinctive_accesses_found": present, "wrong_callee": wrong})
+        access = f"{s['arg']}.{want}" if want else ""
+        cases.append(f"(mkSite root members heads {C.cstrs(s['params'])} {C.cstr(s['callee'])} {C.cbool(s['special'])} {C.cstr(access)} "
+                     f"{C.cstrs(s['may'])} {C.cstrs(observed)})")
+        metas.append({**s, "results": res, "distinctive_accesses_found": observed, "access_of_named_callee": access})
     codes = C.coq_eval_codes("c08", header, "site", "site_code", cases, shard=200)
-    new, known = [], []
+    new, known, known_classes = [], [], set()
+    listed = {f.get("class") for f in C.known_findings(PROP)}
     by_tag = collections.Counter()
     for c, m in zip(codes, metas):
         by_tag[m["tag"]] += 1
-        bad = bool(c & 2) or bool(m["wrong_callee"])
-        if not bad:
+        if not (c & 2):
             continue
+        stray = [a for a in m["distinctive_accesses_found"] if a != m["access_of_named_callee"] and a not in m["may"]]
         info = {"call_site": m["src"], "kind": m["tag"], "callee": m["callee"], "parameters_in_scope": m["params"],
-                "why": ("the wrong callee was inlined: " + ", ".join(m["wrong_callee"])) if m["wrong_callee"] and not (c & 2) else
+                "why": ("accesses of a callee the call does not name were inlined: " + ", ".join(stray)) if stray else
                        ("inlined although the property says it must not be" if m["distinctive_accesses_found"] else "not inlined although the property says it must be"),
-                "caller_results": m["results"], "module_prelude": PRELUDE}
-        if (c & 4) and m["name"] not in fa_bad:
+                "caller_results": m["results"], "module_prelude": PRELUDE, "imported_files": {"mod_imp.py": MOD_IMP, **PKG_FILES}}
+        cls = "KF_C08_1" if c & 4 else "KF_C08_2" if c & 8 else None
+        if cls in listed and m["name"] not in fa_bad:
             known.append(info)
+            known_classes.add(cls)
         else:
             new.append(info)
+    # module level: the root-context suite (model/RootCtx.v vs compile_root_context; spec/RootSpec.v = Python's binding rules)
+    root = root_run.run(tier)
+    root_corr = [m for c, m in root["cases"] if (c & 1) and m["outcome"] != "raise"]
+    root_new, root_known = [], []
+    for c, m in root["cases"]:
+        if not (c & 2) or (c & 1):
+            continue
+        info = {"why": "a module-level name has another symbol in rattr's root context than Python's binding rules give it (the last binding wins, del unbinds)",
+                "module": m["source"], "written_to": m["place"], "project_files": R_PROJECT, "rattr_registered": m.get("registered")}
+        if (c & 4) and "KF_C08_3" in listed:
+            root_known.append(info)
+            known_classes.add("KF_C08_3")
+        else:
+            root_new.append(info)
+    new += root_new
     for x in new[:4]:
         V.violation({"property": PROP, **x})
     if not new:
-        if fa_bad:
+        if root_corr:
+            V.violation({"property": PROP, "broken": "correspondence suite root (model/RootCtx.v vs compile_root_context)", "disagreements": len(root_corr), "first": root_corr[0]}, failing_input=False)
+        elif fa_bad:
             V.violation({"property": PROP, "broken": "FunctionAnalyser correspondence on the C08 matrix (model/FuncAn.v, Context.v get_call_target)", "functions": fa_bad[:10]}, failing_input=False)
         elif broken:
             V.violation({"property": PROP, "broken": broken, "errors": build.failed, "why": "proof obligation no longer checks"}, failing_input=False)
     for f in C.known_findings(PROP):
-        if known:
+        if f.get("class") in known_classes:
             V.known(f"{f['id']}: {f['what']}")
         else:
             V.notes.append(f"listed finding {f['id']} did not reproduce in this run")
@@ -218,10 +253,13 @@ def main(tier: str) -> int:
         "obligations": max(n_obl, 1), "discharged": n_done, "checker_cmd": "cd /verif/coq && make props/C08.vo",
         "trusted_base": C.TRUSTED_BASE_COMMON + ["the specification spec/Scoping.v reads the property's statement: parameters (of the function, of enclosing lambdas) shadow; locals are not judged as shadowing; definitions precede their callers in the matrix module (the order dependence of static-method resolution is listed under C05/C06)",
                                                  "inlining is observed through distinctive attribute names of each callee in the caller's results of a real run"],
-        "evaluations": len(cases) + len(fa_terms), "distinct_nontrivial": len(cases),
-        "rule": "one calling function per cell of: symbol kind {function, lambda, class, static method, from-import, module import, builtin, parameter, local, undefined, plain variable} x call form {bare, dotted on module / class / parameter / local / undefined / variable / function, attribute chain, on call result, on subscript, on literal, on expression} x shadowing {none, positional parameter, keyword-only parameter, lambda parameter, enclosing lambda parameter at depth 1 and 2}",
+        "evaluations": len(cases) + len(fa_terms) + len(root["cases"]), "distinct_nontrivial": len(cases) + len({m["source"] for _, m in root["cases"]}),
+        "rule": "root contexts: every statement template alone / after / before a colliding binding / after a deletion, every block shape, and seeded random modules, each written to the top level, into a package, into a nested package and as a package __init__; call sites: one calling function per cell of: symbol kind {function, lambda, class, static method, from-import, module import, builtin, parameter, local, undefined, plain variable} x call form {bare, dotted on module / class / parameter / local / undefined / variable / function, attribute chain, on call result, on subscript, on literal, on expression} x shadowing {none, positional parameter, keyword-only parameter, lambda parameter, enclosing lambda parameter at depth 1 and 2}",
         "sites_by_kind": dict(by_tag), "traces_validated_against_impl": len(fa_terms), "disagreements_checked": len(fa_bad),
-        "decisions_new": len(new), "decisions_known_class": len(known),
+        "decisions_new": len(new) - len(root_new), "decisions_known_class": len(known),
+        "root_context_modules": len(root["cases"]), "root_context_outcomes": dict(collections.Counter(m["outcome"] for _, m in root["cases"])),
+        "root_context_disagreements_with_model": len(root_corr), "root_context_judged_against_python": sum(1 for c, m in root["cases"] if m["outcome"] == "ok"),
+        "root_context_rebinding_known_class": len(root_known), "root_context_spec_failures_new": len(root_new), "root_context_modules_set_aside_by_translator": len(root["skipped"]),
         "print_assumptions": pa, "broken_obligation_files": broken, "samples": [known[0] if known else metas[0]["src"]]},
         wall_s=T.s, assumptions=["one module, one followed import; identifiers printable ASCII"], violations=len(V.violations))
     return V.finish()
